@@ -3,6 +3,7 @@
 import glob, json, os
 rows = []
 for d in sorted(glob.glob(os.path.join(os.path.dirname(os.path.dirname(os.path.abspath(__file__))), "seeded", "*"))):
+    if not os.path.exists(os.path.join(d, "meta.json")): continue
     m = json.load(open(os.path.join(d, "meta.json")))
     name = os.path.basename(d)
     cr = m.get("checks_run", {})
